@@ -632,7 +632,7 @@ func (c *Case) attribute(mode string, e *expectation, o *outcome) string {
 		if o.Kind == "panic" {
 			st = panicFrame(o.Panic)
 		}
-		if strings.Contains(st, "newInstanceByType") || (refClass == "" && c.Hazard == "" && (st == "" || strings.Contains(st, "convertTo"))) {
+		if strings.Contains(st, "newInstanceByType") || (refClass == "" && (st == "" || strings.Contains(st, "convertTo"))) {
 			return fArrayInput
 		}
 	}
